@@ -107,7 +107,7 @@ def _rendered_width(fmt: str):
         spec = spec or ""
         if "{length}" in spec:
             coef += 1
-            spec = spec.replace("{length}", "")
+            spec = spec.replace(".{length}", "").replace("{length}", "")  # width, optionally with an equal precision (cut to the field)
             if spec.strip("<>^=+- ") not in ("",):
                 raise AnalysisError(f"format spec `{spec}` outside fragment")
             continue
@@ -346,6 +346,13 @@ def r1_primitive_symmetry(idx, r):
         w = _rendered_width(fmt)
         r.require(w == rl, f"ascii:{meth}:width", fw, node=node,
                   msg=f"writer renders {w} (chars, length-coef) with `{fmt}` but reader consumes {rl}")
+    # a string longer than its field: the binary writer cuts it (struct 'Ns'), so the ascii writer must cut it too (precision = width), or the
+    # ascii record is longer than the reader consumes and every later field is misread
+    fws, fmts, nodes = writer_fmt("rwString")
+    cut = any(sp and "{length}" in sp and ".{length}" in sp for _l, _f, sp, _c in string.Formatter().parse(fmts))
+    r.require(cut, "ascii:rwString:cut-to-the-field-width", fws, node=nodes,
+              msg=f"`{fmts}` pads a short string to the field width but does not cut a long one (no `.{{length}}` precision): a 10-character label in an 8-character field shifts the rest of the "
+                  "record, while the binary writer truncates it")
     # every float (three-digit exponents, inf, nan included) must render to exactly the reader's field width
     for meth in ("rwFloat", "rwDouble"):
         fr, rl = reader_len("rwFloat")
